@@ -871,6 +871,9 @@ func typeNeedsElem(typ string, settings GenerateSettings) bool {
 	if _, ok := primitiveTypes[typ]; ok {
 		return false
 	}
+	if alias, ok := settings.importTypeAliases[typ]; ok {
+		typ = alias
+	}
 	_, ok := settings.customRecordTypes[typ]
 	return ok
 }
